@@ -804,16 +804,7 @@ func verifC16CRunCase(t *testing.T, vc *verifCtx, st *verifC16CStores,
 		vc.Count("lin_unknown", 1)
 		vc.Diag("porcupine_timeout", fmt.Sprintf("case %d", idx))
 	case porcupine.Illegal:
-		kinds := map[string]struct{}{}
-		for _, r := range recs[preLen:concLen] {
-			kinds[r.In.K+":"+r.Out.Class] = struct{}{}
-		}
-		var ks []string
-		for k := range kinds {
-			ks = append(ks, k)
-		}
-		sort.Strings(ks)
-		vc.Violation("linearizability", st.backend+":"+strings.Join(ks, ","),
+		vc.Violation("linearizability", st.backend,
 			"client-boundary history is not linearizable against the "+
 				"sequential payment-store model", witness)
 		dirty = true
